@@ -143,6 +143,7 @@ class TU:
         self.funcs = {}
         self.protos = {}
         self.globals = {}
+        self.global_decls = {}
         self.enums = {}       # enumerator -> int
         self.enum_types = {}  # enum name -> [(enumerator, value)]
         self.records = {}
@@ -164,8 +165,10 @@ class TU:
             elif k == 'VarDecl':
                 # keep the defining declaration if there are several
                 old = self.globals.get(n['name'])
-                if old is None or (n.get('inner') and not old.get('inner')):
+                if old is None or ('init' in n and 'init' not in old) or \
+                        (old.get('storageClass') == 'extern' and n.get('storageClass') != 'extern' and 'init' not in old):
                     self.globals[n['name']] = n
+                self.global_decls.setdefault(n['name'], []).append(n)
             elif k == 'EnumDecl':
                 self._enum(n)
             elif k == 'RecordDecl' and n.get('completeDefinition') and n.get('name'):
